@@ -58,3 +58,20 @@ def isCodeSigning (v : CertView) : Bool :=
 def scopeOf (v : CertView) : Scope := ⟨isServerAuth v, isEmailProtection v, isCodeSigning v⟩
 
 end Zl
+
+/-! ### CA classification (v3/util/ca.go: IsCACert, IsSelfSigned, IsRootCA, IsSubCA, IsSubscriberCert)
+
+  The four predicates read two parsed fields only: `IsCA` and `SelfSigned` (the latter is the only way the
+  signature value reaches any lint — C09). -/
+namespace Zl
+
+structure CAView where
+  isCA : Bool
+  selfSigned : Bool
+  deriving DecidableEq, Repr
+
+def isRootCA (v : CAView) : Bool := v.isCA && v.selfSigned
+def isSubCA (v : CAView) : Bool := v.isCA && !v.selfSigned
+def isSubscriberCert (v : CAView) : Bool := !v.isCA && !v.selfSigned
+
+end Zl
